@@ -14,6 +14,17 @@ def sh(cmd, cwd):
     return p.returncode, (p.stdout + p.stderr)[-3000:]
 
 
+def new_files(patch):
+    """paths a patch creates (they stay behind as untracked files after `git checkout -- .`)"""
+    out, prev = [], None
+    for ln in open(patch):
+        if ln.startswith("--- "):
+            prev = ln[4:].strip()
+        elif ln.startswith("+++ ") and prev == "/dev/null":
+            out.append(ln[4:].strip()[2:])
+    return out
+
+
 def main():
     wt = os.path.abspath(sys.argv[1])
     meta = json.load(open(os.path.join(wt, "seeded", "meta.json")))
@@ -23,7 +34,11 @@ def main():
         demo_loc = os.path.join(wt, demo_loc)
     res = {}
     # normalise the worktree: exactly seeded/patch.diff applied on a clean checkout, demo copied into place
-    sh("git checkout -- . && git apply seeded/patch.diff", wt)
+    sh("git reset -q; git checkout -- .", wt)
+    for f in new_files(os.path.join(wt, "seeded", "patch.diff")):
+        if os.path.exists(os.path.join(wt, f)):
+            os.remove(os.path.join(wt, f))
+    sh("git apply seeded/patch.diff", wt)
     if not os.path.exists(demo_loc) and os.path.exists(os.path.join(wt, "seeded", "demo.rs")):
         shutil.copy(os.path.join(wt, "seeded", "demo.rs"), demo_loc)
     rc, out = sh("git diff --stat", wt)
@@ -43,7 +58,7 @@ def main():
     if moved:
         shutil.move(hidden, demo_loc)
     # without the change
-    sh("git checkout -- .", wt)
+    sh("git apply -R seeded/patch.diff && git checkout -- .", wt)
     rc3, out3 = sh(demo_cmd, wt)
     res["demo_without_change_passes"] = rc3 == 0
     sh("git apply seeded/patch.diff", wt)
